@@ -42,7 +42,7 @@ NULL = ("0.0.0.0", 0)
 
 FIELD_KINDS = ["flip_ident", "flip_key", "flip_auth", "flip_cands", "flip_cid", "subst_eph", "fake_responder",
                "zero_key", "short_key", "ident_other"]
-TIME_KINDS = ["duplicate", "replay_retry", "late_removed"]
+TIME_KINDS = ["duplicate", "replay_retry", "late_removed", "slow_candidate"]
 KINDS = ["none"] + FIELD_KINDS + TIME_KINDS + ["cid_swap", "reorder", "garbage_cands", "dup_created"]
 
 
@@ -839,7 +839,7 @@ class Attack:
             return cls(a["cid"], a["ident"], a["key"], a["auth"], a["cands"])
         if self.kind == "duplicate":
             return [payload, mk(base)]
-        if self.kind in ("replay_retry", "late_removed"):
+        if self.kind in ("replay_retry", "late_removed", "slow_candidate"):
             self.stash.append(lambda: ov.send_cell(target, mk(base)))
             return []
         if self.kind == "garbage_cands":
@@ -963,6 +963,8 @@ def specs(ctx):
                     continue           # the list is only read while the circuit is still extending
                 if kind == "dup_created" and not (pos == "network" and k >= 2):
                     continue
+                if kind == "slow_candidate" and not (pos == "network" and hops >= 2 and k in (1, hops)):
+                    continue
                 for s in seeds:
                     out.append((hops, pos, k, kind, s))
     if not ctx.quick:
@@ -985,7 +987,10 @@ async def scenario(spec, base_seed, sweep=None):
         ref[0] = net
         await net.start()
         o = net.origin
-        c1 = net.new_circuit(o, hops, exit_flags=[2])
+        # slow_candidate: an honest but slow candidate answers after the retry to the next candidate went out; no
+        # required exit, so that the last hop position has alternative candidates as well
+        ckw = {} if kind == "slow_candidate" else {"exit_flags": [2]}
+        c1 = net.new_circuit(o, hops, **ckw)
         two = kind in ("ident_other", "cid_swap", "reorder")
         c2 = net.new_circuit(o, hops, exit_flags=[2]) if two else None
         info["c1"], info["c2"] = c1, c2
@@ -1000,7 +1005,7 @@ async def scenario(spec, base_seed, sweep=None):
         else:
             net.net.filter = lambda src, dst, data: atk.on_wire(net, src, dst, data)
         await net.drive()
-        if kind in ("replay_retry", "late_removed") or (atk.fired and c1.state != "READY"):
+        if kind in ("replay_retry", "late_removed", "slow_candidate") or (atk.fired and c1.state != "READY"):
             for _ in range(8 if kind == "late_removed" else 1):
                 await loop.advance(10.5)
                 await net.idle()
@@ -1065,6 +1070,7 @@ def oracle(net, atk, info, report):
     sym = net.sym
     spec = info["spec"]
     origin = net.origin
+    producers = {(bytes(p.key), bytes(p.auth)): name for name, _, p, _ in net.sent if type(p).__name__ == "CreatedPayload"}
     honest_created = {(name, bytes(p.key), bytes(p.auth)) for name, _, p, _ in net.sent if type(p).__name__ == "CreatedPayload"}
     # (1) every hop ever appended
     for node, c, hop, r, held in net.hop_adds:
@@ -1124,6 +1130,13 @@ def oracle(net, atk, info, report):
             report("secrecy/keys-held-by-other", "session keys of hop naming %s are held by %s (%s)" % (selname, sorted(hs), tag))
         # genuine: exactly what the selected node's own join_circuit produced (before anybody touched it)
         genuine = sel is not None and (selname, bytes(p.key), bytes(p.auth)) in honest_created
+        producer = producers.get((bytes(p.key), bytes(p.auth)))
+        if producer is not None and producer != selname:
+            # an honest node's answer (to an earlier attempt / another candidate of this hop position) was taken
+            # for the answer of the peer selected now: the hop names a peer that does not hold its keys
+            report("accept/stale-answer-of-other-candidate",
+                   "the created that %s produced was accepted for the hop naming %s; %s holds identical keys: %s (%s)"
+                   % (producer, selname, selname, selname in held.get(keybytes(hop.keys), set()), tag))
         if genuine and selname not in held.get(keybytes(hop.keys), set()):
             # the selected node answered this very create: at that moment it holds identical keys
             report("honest/keys-disagree", "genuine answer accepted but %s holds no identical keys (%s)" % (selname, tag))
